@@ -91,6 +91,11 @@ func verifObserveClient(c *Client, store *verifStore, q1, q2 []verifEntry, tag s
 	o.observe(tag)
 }
 
+func verifDrainClient(c *Client, store *verifStore, q1, q2 []verifEntry, tag string) {
+	o := &verifOut{c: c, store: store, q1: q1, q2: q2}
+	o.drain(tag)
+}
+
 func verifAdoptConfig() *Config {
 	d := &verifDialer{}
 	cfg := &Config{Dialer: d.dial}
@@ -107,10 +112,9 @@ func verifAdoptConfig() *Config {
 
 // verifH_C02_adopt: adopt an arbitrary PINV store, publish, stop, adopt again.
 func verifH_C02_adopt() {
-	W := verifParam("W", 2)
-	w1 := verifChoose("w1", W+1)
-	wr := verifChoose("wr", W+1)
-	wp := verifChoose("wp", W+1)
+	shapes := [][3]int{{0, 0, 0}, {1, 1, 1}, {2, 0, 0}, {0, 2, 1}, {0, 1, 2}, {0, 2, 0}, {2, 2, 2}, {3, 1, 0}, {0, 3, 0}, {0, 0, 3}}
+	sh := shapes[verifChoose("shape", verifParam("shapes", 6))]
+	w1, wr, wp := sh[0], sh[1], sh[2]
 	ps := verifPINVStore(w1, wr, wp)
 	readBufSize = verifB
 	cfg := verifAdoptConfig()
@@ -123,6 +127,8 @@ func verifH_C02_adopt() {
 	// second generation: one more publish while offline, then stop and adopt again
 	gen2 := verifChoose("gen2", 3)
 	if gen2 == 0 {
+		verifDrainClient(c, ps.store, ps.q1, ps.q2, "C02(adopt)")
+		verifReach("drained")
 		return
 	}
 	msg := verifBytes("new", 1)
@@ -163,5 +169,6 @@ func verifH_C02_adopt() {
 	verifAssert(fatal2 == nil, "C02: second AdoptSession fails")
 	verifAssert(len(warn2) == 0, "C02: second AdoptSession drops records (storage order of records saved after a restart)")
 	verifObserveClient(c2, ps.store, ps.q1, ps.q2, "C02(second adopt)")
+	verifDrainClient(c2, ps.store, ps.q1, ps.q2, "C02(second adopt)")
 	verifReach("adopted-twice")
 }
